@@ -10,8 +10,8 @@ import (
 // ZZ_C03_auxpow: AuxPow.Check on a decoded merged-mining proof never panics.
 // The proof is built so that every early "return false" can be passed: the
 // parent coinbase lies under the parent merkle root, and its script carries
-// the marker, the aux root, an arbitrary 4-byte size and an arbitrary 4-byte
-// nonce. Symbolic: size, nonce, low bit of the aux index, 4 extra script
+// the marker, the aux root and 0..10 arbitrary bytes after it (size, nonce,
+// possibly truncated). Symbolic: size, nonce, low bit of the aux index, 4 extra script
 // bytes; enumerated: aux branch length (0,1,2,30..33,40), number of parent
 // coinbase inputs (0 or 1), whether the script is present at all.
 func ZZ_C03_auxpow() {
@@ -29,11 +29,15 @@ func ZZ_C03_auxpow() {
 	if withScript == 1 {
 		script = append(script, pchMergedMiningHeader...)
 		script = append(script, common.BytesReverse(root.Bytes())...)
-		script = append(script, nd.Bytes("size_and_nonce", 8)...)
-		script = append(script, nd.Bytes("tail", 2)...)
+		// 0..10 arbitrary bytes after the root: size (4) and nonce (4) may be cut short
+		script = append(script, nd.Bytes("after_root", nd.Choose("bytes_after_root", 11))...)
 	} else {
 		script = nd.Bytes("short_script", 3)
 	}
+	// a decoded script has no spare capacity (ReadVarBytes allocates exactly)
+	exact := make([]byte, len(script))
+	copy(exact, script)
+	script = exact
 	ap.ParCoinbaseTx.Version = 1
 	if nIn == 1 {
 		ap.ParCoinbaseTx.TxIn = []*BtcTxIn{{SignatureScript: script}}
